@@ -440,6 +440,16 @@ class Engine:
             if v and v[0] == "refv":
                 return v[1]
             return v
+        if callee in ("core::cmp::PartialEq::eq", "core::cmp::PartialEq::ne") and len(args) == 2 and any("core::cmp::Ordering" in g for g in t.get("ga", [])):
+            # `x.total_cmp(&0.) == Ordering::Greater` kept in a bool: the same fact as `x > 0.`
+            a, b = deref(args[0]), deref(args[1])
+            if b and b[0] == "cmp0":
+                a, b = b, a
+            if a and a[0] == "cmp0" and b and b[0] == "agg" and "Ordering#" in str(b[1]):
+                op = {"Less": "Lt", "Equal": "Eq", "Greater": "Gt"}.get(str(b[1]).split("#")[-1])
+                if op:
+                    return ("rel0", a[1], op if last == "eq" else NEGATE[op])
+            return ("unk", "bool")
         isf = "<impl f64>" in callee or "<impl f32>" in callee
         if isf or ("<impl usize>" in callee) or ("<impl i32>" in callee) or ("<impl i64>" in callee) or callee.startswith(("core::cmp::Ord::", "core::cmp::PartialOrd::")):
             a0 = as_num(deref(args[0])) if args else num(TOP)
